@@ -291,6 +291,27 @@ def run_shard(ctx):
             # small conditioning sets and very large ones (more than 32 named nodes in one query)
             k = rng.randint(0, 4) if _q % 2 else rng.randint(30, min(len(rest), 70))
             query(ctx, g, gd, a, b, sorted(rng.sample(rest, k)), gkey)
+    # scale: a ladder with 2^48 directed paths and a chain of 1200 nodes, each query under a function-activation budget
+    from .c02 import scale_graph
+
+    for j, (name, budget) in enumerate((("ladder48", 60_000_000), ("chain1200", 600_000_000))):
+        if not ctx.mine(5 * j + 3):
+            continue
+        gd_, q_ = scale_graph(name)
+        gd_ = dict(gd_, hostile="scale:" + name)
+        g_ = gg.to_nx(gd_, mode=3)
+        x_, y_, mid_ = q_["X"][0], q_["Y"][0], gd_["nodes"][len(gd_["nodes"]) // 2]
+        for a_, b_, C_ in ((x_, y_, []), (x_, y_, [mid_]), (y_, x_, [gd_["nodes"][3]]), (mid_, y_, [x_])):
+            if len({a_, b_, *C_}) < 2 + len(C_):
+                continue
+            try:
+                with kernel.step_budget(budget) as sb:
+                    query(ctx, g_, gd_, a_, b_, C_, "scale:" + name)
+                key_ = f"C04:scale-max-function-activations:{name}"
+                kernel.LOG.counters[key_] = max(kernel.LOG.counters[key_], sb.used)
+            except kernel.BudgetExceeded:
+                kernel.violation(PROP, "bounded-progress", f"are_d_separated({a_}, {b_} | {C_}) on the {name} graph used more "
+                                 f"than {budget} function activations", case={"scale": name, "a": a_, "b": b_, "C": C_})
     # the separations the enumerator publishes (with and without a size limit) are separations
     for _ in range(ctx.share({"quick": 600, "thorough": 12000}[ctx.tier])):
         gd = gg.random_admg(rng, rng.randint(4, 6))
